@@ -91,6 +91,14 @@ def inject(draw, node, targets, depth=0, hits=None, hashable=False):
     return node
 
 
+def _opaque_free(node):
+    """Leaves the hand rewriter cannot look into must not mention an override key: beartype also rewrites the argument of a
+    user generic's subscription (VRow[bytes] -> VRow[<replacement of bytes>]), which the leaf spelling hides from the rewriter."""
+    if node == ['shallow', 'VRow[bytes]']:
+        return ['shallow', 'VRow[int]']
+    return H._map_children(node, _opaque_free)
+
+
 def contains_key(node, keys):
     cs = {_canon(k) for k in keys}
     found = []
@@ -117,6 +125,7 @@ def _case(draw, tier):
     for a in keys:
         mode = draw(st.sampled_from(['self', 'other', 'other', 'self-wide', 'wide']))
         c, _n = H.avoid_known_shapes(draw(H.hint_nodes(draw(st.sampled_from([0, 0, 1])), hashable=True)))
+        c = _opaque_free(c)
         # the replacement must not mention any override key or tower class except the documented A | C form
         if contains_key(c, KEYS):
             c = ['cls', 'int']
@@ -133,6 +142,7 @@ def _case(draw, tier):
     targets = [a for a, _b in overrides] + ([['cls', 'float'], ['cls', 'complex']] if tower else [])
     depth = draw(st.sampled_from([0, 1, 1, 2, 2, 3] + ([4] if tier == 'thorough' else [])))
     base, _n = H.avoid_known_shapes(draw(H.hint_nodes(depth)))
+    base = _opaque_free(base)
     hits = []
     node = inject(draw, base, targets, 0, hits)
     if not hits:
